@@ -32,7 +32,9 @@ def tval(t):
 
 
 def tcode(t):
-    return INF_CODE if t == INF else int(t)
+    if t == INF:
+        return INF_CODE
+    return int(t) if t == int(t) else int(round(t * 1000000))    # float families (implementation-only): micro units
 
 
 class Budget(BaseException):
